@@ -137,7 +137,8 @@ structure Shared where
   enq : List Item := []
   /-- ghost: items the receiver dequeued, in order -/
   deqd : List Item := []
-  /-- ghost: messages whose handler was started, in order -/
+  /-- ghost: messages whose handler was started (`run_with_signal(handle_message)` polled the
+  handler), in order -/
   handled : List Nat := []
   /-- ghost: items dropped by close+flush -/
   flushed : List Item := []
@@ -149,6 +150,13 @@ structure Shared where
   nextId : Nat := 0
   /-- ghost: returned ops, in order -/
   rets : List Ret := []
+  /-- the message `listen_in_priority` has dequeued and whose handler has not been polled yet:
+  `run_with_signal` tests the signal port FIRST, so a kill that lands in this window drops it -/
+  taken : Option Nat := none
+  /-- ghost: messages dequeued and then dropped without their handler ever running (a stop
+  reason other than the marker — in the code: the signal port — won the first poll of
+  `run_with_signal`) -/
+  dropped : List Nat := []
   deriving Repr, Inhabited
 
 structure G where
@@ -159,9 +167,11 @@ structure G where
 inductive Tid where
   /-- worker thread `i` performs its next atomic step -/
   | t (i : Nat)
-  /-- receiver: dequeue one item and start handling it -/
+  /-- receiver, two phases: with nothing taken, dequeue one item (`listen_in_priority`); with a
+  message taken, start its handler (first poll of `run_with_signal(handle_message)`) -/
   | recv
-  /-- receiver: leave the loop for another reason (stop, kill, handler failure) -/
+  /-- receiver: leave the loop for another reason (stop, kill, handler failure); a message that
+  was dequeued but whose handler had not started is dropped -/
   | rxStop
   /-- receiver: `message_rx.close()` (after the loop ended) -/
   | rxClose
@@ -275,14 +285,19 @@ def stepThread (s : Shared) (stack : List Frame) : Option (Shared × List Frame)
 def stepRx (s : Shared) : Tid → Shared
   | .recv =>
     if s.rxOpen && !s.rxStopped then
-      match s.queue with
-      | [] => s
-      | .msg i :: q => { s with queue := q, deqd := s.deqd ++ [.msg i], handled := s.handled ++ [i] }
-      | .drain :: q =>
-        { s with queue := q, deqd := s.deqd ++ [.drain], rxStopped := true,
-                 drainedExits := s.drainedExits + 1 }
+      match s.taken with
+      | some i => { s with taken := none, handled := s.handled ++ [i] }
+      | none =>
+        match s.queue with
+        | [] => s
+        | .msg i :: q => { s with queue := q, deqd := s.deqd ++ [.msg i], taken := some i }
+        | .drain :: q =>
+          { s with queue := q, deqd := s.deqd ++ [.drain], rxStopped := true,
+                   drainedExits := s.drainedExits + 1 }
     else s
-  | .rxStop => { s with rxStopped := true, stoppedByOther := true }
+  | .rxStop =>
+    { s with rxStopped := true, stoppedByOther := true, taken := none,
+             dropped := s.dropped ++ s.taken.toList }
   | .rxClose => if s.rxStopped then { s with rxOpen := false } else s
   | .rxFlush => if s.rxOpen then s else { s with queue := [], flushed := s.flushed ++ s.queue }
   | .setStatus st => { s with status := max s.status st }
@@ -431,6 +446,25 @@ def Obs.violations (o : Obs) : List String :=
   (if !o.word.closed || o.otherExit || (o.drainedExits == 1 && !o.alive) then [] else ["drain-never-finishes"]) ++
   (if o.word.closed || o.drainedExits == 0 then [] else ["drained-without-drain"])
 
+/-- Round 4. In a cluster build a message enqueued by `send_serialized` is decoded lazily, inside
+`handle_message` on the actor's task; when `Msg::from_boxed` fails (or panics) the message is dropped
+with `Ok(())` and the loop goes on. The ghost `handled` records that `handle_message` was started for
+the message; what reaches the user's `handle` is `handled` without the undecodable ids. -/
+def userHandled (undecodable handled : List Nat) : List Nat :=
+  handled.filter (fun i => !undecodable.contains i)
+
+/-- Round 4, the `ok-not-handled` clause where a later stop / kill cannot excuse a loss: observed at
+a moment when the live actor's task had run until it blocked (mailbox empty, nothing taken) and no
+stop / kill had been accepted so far — every send that had returned `Ok` by then is handled by then.
+Evaluated by the driver after every `rx run` that leaves the actor alive; proved of the model for
+every reachable state (`C02.ok_sends_are_handled_whenever_the_mailbox_is_quiet`). -/
+def quietViolations (okSoFar handledSoFar : List Nat) : List String :=
+  if okSoFar.all handledSoFar.contains then [] else ["ok-not-handled-at-quiescence"]
+
+/-- The live receiver has nothing left to do and was not stopped from outside. -/
+def quiet (s : Shared) : Bool :=
+  s.queue.isEmpty && s.taken.isNone && s.rxOpen && !s.rxStopped && !s.stoppedByOther
+
 def obsOf (g : G) : Obs :=
   { rets := g.sh.rets, handled := g.sh.handled, word := g.sh.word, drainedExits := g.sh.drainedExits,
     otherExit := g.sh.stoppedByOther, alive := g.sh.rxOpen }
@@ -438,6 +472,6 @@ def obsOf (g : G) : Obs :=
 /-- End of a case: no op in flight, and the receiver ran until it blocked (nothing left in the
 channel; if it left its loop it has also closed the channel). -/
 def endState (g : G) : Bool :=
-  quiescent g && g.sh.queue.isEmpty && (!g.sh.rxStopped || !g.sh.rxOpen)
+  quiescent g && g.sh.queue.isEmpty && g.sh.taken.isNone && (!g.sh.rxStopped || !g.sh.rxOpen)
 
 end Admission
